@@ -205,10 +205,10 @@ func I(workPackage types.WorkPackage, j int, o types.ByteSequence, imports [][]t
 func C(item types.WorkItem, result types.WorkExecResult, gas types.Gas) types.WorkResult {
 	payloadHash := hash.Blake2bHash(item.Payload)
 	importCount := types.U16(len(item.ImportSegments))
-	extrinsicSize := types.U32(len(item.Extrinsic))
-	var zSum types.U16
+	extrinsicCount := types.U16(len(item.Extrinsic))
+	var zSum types.U32
 	for _, v := range item.Extrinsic {
-		zSum += types.U16(v.Len)
+		zSum += v.Len
 	}
 	return types.WorkResult{
 		ServiceID:     item.Service,
@@ -219,9 +219,9 @@ func C(item types.WorkItem, result types.WorkExecResult, gas types.Gas) types.Wo
 		RefineLoad: types.RefineLoad{
 			GasUsed:        gas,
 			Imports:        importCount,
-			ExtrinsicCount: item.ExportCount,
-			ExtrinsicSize:  extrinsicSize,
-			Exports:        zSum,
+			ExtrinsicCount: extrinsicCount,   // |w_x|
+			ExtrinsicSize:  zSum,             // sum of the extrinsic lengths
+			Exports:        item.ExportCount, // w_e
 		},
 	}
 }
@@ -291,6 +291,11 @@ func buildSCloud(exports []types.ExportSegment) ([]types.OpaqueHash, error) {
 			return nil, err
 		}
 		groupShards[i] = shards
+	}
+	if len(fullSegments) == 0 {
+		// no segments: every shard's sequence is empty and M_B([]) is the zero hash
+		// (an empty transposition would otherwise make mergeBCloudSCloud index out of range)
+		return make([]types.OpaqueHash, types.TotalShards), nil
 	}
 	transposed := Transpose(groupShards)
 	merkleResult := make([]types.OpaqueHash, len(transposed))
